@@ -37,7 +37,7 @@ def bounds(tier):
 def goals(tier):
     return ["accepted-by-signature", "rejected-by-upstream-letter", "rejected-by-downstream-letter", "degenerate-signature-accepts",
             "degenerate-signature-rejects", "vector-part", "characterize-found", "characterize-runtimeerror", "characterize-concrete-root",
-            "characterize-several-candidates-accept", "other-kind-record", "signature-free-class-asked-first", "candidate-type-declared-after-first-use", "every-presentation-of-a-plasmid", "linear-record-accepted", "linear-record-rejected", "characterize-every-presentation", "linear-record-flush-with-the-structure", "boundary-length-record", "record-object-reused"]
+            "characterize-several-candidates-accept", "other-kind-record", "signature-free-class-asked-first", "candidate-type-declared-after-first-use", "every-presentation-of-a-plasmid", "linear-record-accepted", "linear-record-rejected", "characterize-every-presentation", "linear-record-flush-with-the-structure", "boundary-length-record", "record-object-reused", "enzyme-cutting-inside-its-site"]
 
 
 # ---------------------------------------------------------------------------------------------
@@ -305,8 +305,48 @@ def harness_signatures(g, tier):
     return seen
 
 
+def unit_inside(st, enz):
+    """signature-typed module parts over enzymes that cut inside their own site (the site fixes the letters of the overhang)"""
+    g = dict(gen.inside_cutters())[enz]
+    G = gen.generic_classes(enz)[0]
+    gen.prime([G])
+    for blen in (2, 6):
+        s = g.site + gen.word(0, 7 + blen, blen, [g.site, g.rsite]) + g.rsite + gen.word(1, 31, 5, [g.site, g.rsite])
+        if rm.count_sites(s, g) != 2:
+            st.filtered += 1
+            continue
+        for r in sorted({0, 2, len(s) // 2, len(s) - 1}):
+            sr = rm.rot_right(s, r)
+            try:
+                gobs = typed(G, sr)
+            except Exception as e:
+                st.violation("typing", "raises-" + type(e).__name__, dict(family="inside", enz=enz, seq=sr), "verdicts", str(e)[:160])
+                continue
+            if gobs[0] is not True:
+                st.filtered += 1
+                continue
+            o5, o3 = gobs[1].upper(), gobs[2].upper()
+            wrong = ("A" if o5[0] != "A" else "C") + o5[1:]
+            for sig in ((o5, o3), ("N" * g.ov, o3), (o5, "N" * g.ov), (wrong, o3)):
+                cls = harness_part(enz, "module", sig)
+                gen.prime([cls])
+                scn = dict(family="inside", enz=enz, signature=list(sig), seq=sr)
+                try:
+                    pobs = typed(cls, sr)
+                except Exception as e:
+                    st.violation("typing", "raises-" + type(e).__name__, scn, "verdicts", str(e)[:160])
+                    continue
+                exp = rm.iupac_match(sig[0], o5) and rm.iupac_match(sig[1], o3)
+                st.scenario("accept" if exp else "reject", None, calls=2)
+                st.nontrivial += 1
+                st.goal("enzyme-cutting-inside-its-site")
+                if (pobs[0] is True) != exp:
+                    st.violation("typing", "rejects-record-with-its-signature" if exp else "accepts-record-without-its-signature-upstream", scn, exp, pobs)
+    st.sample(dict(family="inside", enz=enz, signature=["NN", "NN"]))
+
+
 def units(tier):
-    us = [("kit", c.__name__) for c in sig_derived_parts()]
+    us = [("inside", n) for n, _ in gen.inside_cutters()] + [("kit", c.__name__) for c in sig_derived_parts()]
     for name, g in gen.enzymes():
         us.append(("harness", name))
     for root in ("YTKPart", "CIDARPart", "EcoFlexPart", "MoCloPart", "harness-roots"):
@@ -334,6 +374,8 @@ def words_for(cls_words, upsig, downsig, tier):
 
 def run_unit(unit, st, tier):
     kind, arg = unit
+    if kind == "inside":
+        return unit_inside(st, arg)
     if kind == "kit":
         cls = gen.class_by_name(arg)
         upsig, downsig = cls.signature
@@ -584,6 +626,9 @@ def unit_characterize(st, rootname, tier):
 
 def replay(scn, sub, st):
     fam = scn["family"]
+    if fam == "inside":
+        unit_inside(st, scn["enz"])
+        return
     if fam == "late-subclass":
         unit_late_subclass(st, replaying=True)
         return
